@@ -1,11 +1,11 @@
 package main
 
 import (
-	"strings"
 	"fmt"
 	"go/ast"
 	"go/token"
 	"go/types"
+	"strings"
 
 	"golang.org/x/tools/go/ssa"
 )
